@@ -75,6 +75,11 @@ func (a CMap) KeyJSON(k int) string {
 	if err != nil {
 		return fmt.Sprint(err)
 	}
+	if len(b) == 0 || b[0] != '"' {
+		// a member name of a JSON object is a string: a key that marshals to a number is quoted, the
+		// way encoding/json renders the keys of a map[int]V
+		b, _ = json.Marshal(string(b))
+	}
 	return string(b)
 }
 func (a CMap) ValJSON(v string) string {
